@@ -51,6 +51,7 @@ REQUIRED = ["trees", "length_checked", "branch_features_checked", "path_features
             "sholl_get_checked", "sholl_exact_threshold_radii", "lmeasure_tree_checked",
             "lmeasure_node_checked", "lmeasure_bif_checked", "lmeasure_branch_checked",
             "frontend_tree_checked", "frontend_population_checked", "population_padding_checked",
+            "frontend_requeried",
             "single_node_trees", "root_is_tip_or_one_child", "tap_sholl_get", "tap_features_get"]
 FLOOR = {"quick": 700, "thorough": 14000}
 SHARDS = {"quick": 8, "thorough": 16}
@@ -193,6 +194,16 @@ def check_tree(ctx, case, tree, spec, ref: Ref, soma_ok: bool):
             close(ctx, "sholl (front end, steps=array)", fe.get("sholl", steps=arr), want, 0, 0.1,
                   mech="sholl-count")
             ctx.count("sholl_get_checked")
+            # the same extractor object asked again with other radii (and with fewer of them)
+            arr2 = np.array([r for r in rng.uniform(0, rmax * 1.1, 4)
+                             if ref.sholl_margin(r) >= margin])
+            if len(arr2):
+                close(ctx, "sholl (front end, second query with other radii)",
+                      fe.get("sholl", steps=arr2), [ref.sholl(r) for r in arr2], 0, 0.1,
+                      mech="sholl-count")
+                close(ctx, "sholl (front end, first radii again)", fe.get("sholl", steps=arr), want,
+                      0, 0.1, mech="sholl-count")
+                ctx.count("frontend_requeried")
         if rmax == 0:
             ctx.skip("all nodes coincide with the root: no Sholl radii")
             steps = None
@@ -363,6 +374,11 @@ def exec_population(ctx, case):
                                                          f"beyond its {len(w)} values")
         if any(r.n < 2 or r.d.max() == 0 for r in refs):
             return  # a tree without segments / extent has no Sholl profile (the library rejects it)
+        first = int(rng.choice([2, 6]))
+        fe.get("sholl", steps=first)  # an earlier query with other radii must not stick
+        if rng.random() < 0.5:
+            fe.get("sholl")
+        ctx.count("frontend_requeried")
         steps = int(rng.choice([4, 9]))
         got = np.asarray(fe.get("sholl", steps=steps))
         rmax = max(Sholl(t).rmax for t in trees)  # as reported (whatever float width it has)
